@@ -10,7 +10,9 @@ from ..runner import ok, violation, case_sig
 
 PID = 'C13'
 LEVEL = 'exploration'
-RULE = ('Generated hierarchical, lattice and hexagonal-lattice decks with '
+RULE = ('Generated hierarchical, lattice, hexagonal-lattice and twin-fill '
+        '(one universe in 2-3 containers under fill transformations sharing '
+        'the displacement, matrices equal / turned / reflected) decks with '
         'duplicated surfaces (one card under several numbers, references '
         're-pointed at random) converted under all 2^3 combinations of '
         '--skip-deduplication, --always-inline-filling, '
@@ -41,8 +43,14 @@ SCORES = ['-1', '0', '0.5', '1', '2', '1e9']
 def opt_case(draw, tier='quick'):
     if draw(st.integers(0, 5)) == 0:
         return draw(dedup_unit_case())
-    which = draw(st.sampled_from(['hier', 'lattice', 'hex', 'prune']))
-    if which == 'hier':
+    which = draw(st.sampled_from(['hier', 'lattice', 'hex', 'prune',
+                                  'twin']))
+    if which == 'twin':
+        # one universe in several containers under related transformations,
+        # reflections included (the relation between outputs needs no MCNP
+        # reading of a reflected frame)
+        case = draw(gen_hier.twin_fill_case(tier, mirrors=True))
+    elif which == 'hier':
         case = draw(gen_hier.hier_case(tier, {'lattice': True}))
     elif which == 'lattice':
         case = draw(gen_hier.hier_case(tier, {'lattice': 'force',
@@ -116,7 +124,7 @@ def strategy(tier):
 
 def budget(tier):
     if tier == 'quick':
-        return {'max_examples': 400, 'shards': 8, 'time_budget': 110}
+        return {'max_examples': 800, 'shards': 16, 'time_budget': 110}
     return {'max_examples': 9600, 'shards': 16, 'time_budget': 1800}
 
 
